@@ -70,8 +70,13 @@ def c_case(init, rec):
 EXTRA = [(a,) for a in range(len(F.NAMES))] + [(a, b) for a in range(len(F.NAMES)) for b in range(len(F.NAMES))]
 
 
+def _norm_spell(c):
+    sp = c.get("spell")
+    return None if sp is None else [[(k, int(v)) for k, v in specs] for specs in sp]
+
+
 def _norm_case(c):
-    return _norm_case2(c) + (bool(c.get("tmp_sibling", False)),)
+    return _norm_case2(c) + (bool(c.get("tmp_sibling", False)), _norm_spell(c))
 
 
 def _norm_case2(c):
@@ -88,8 +93,8 @@ def _norm_case2(c):
     return init, ops
 
 
-def _json_case(init, ops, tmp_sibling=False):
-    return {"tmp_sibling": tmp_sibling, "init": [[list(p), n] for p, n in init], "ops": [[list(x) if isinstance(x, tuple) else x for x in o] for o in ops]}
+def _json_case(init, ops, tmp_sibling=False, spell=None):
+    return {"tmp_sibling": tmp_sibling, "spell": None if spell is None else [[list(x) for x in sp] for sp in spell], "init": [[list(p), n] for p, n in init], "ops": [[list(x) if isinstance(x, tuple) else x for x in o] for o in ops]}
 
 
 def _prefix_sibling_touched(rec) -> bool:
@@ -116,8 +121,8 @@ def _worker(args):
     # clean-up of stale records below a path that meanwhile became a file logs a warning per path
     logging.getLogger("pynguin.utils.fs_isolation").setLevel(logging.ERROR)
     out = []
-    for k, (init, ops, sib) in enumerate(chunk):
-        out.append(F.run_case(os.path.join(root, f"sb{k}"), init, ops, sib))
+    for k, (init, ops, sib, spell) in enumerate(chunk):
+        out.append(F.run_case(os.path.join(root, f"sb{k}"), init, ops, sib, spell))
     return out
 
 
@@ -135,12 +140,13 @@ def run_all(ctx, cases):
     return out
 
 
-def shrink(ctx, init, ops, cls, sib=False):
+def shrink(ctx, init, ops, cls, sib=False, spell=None):
     scratch = str(ctx.mkscratch())
+    spell = spell if spell is not None else [[("plain", 0)] * F.n_paths(o) for o in ops]
 
-    def fails(i2, o2):
+    def fails(i2, o2, s2=None):
         try:
-            r = F.oracle(F.run_case(os.path.join(scratch, "shrink"), i2, o2, sib))
+            r = F.oracle(F.run_case(os.path.join(scratch, "shrink"), i2, o2, sib, s2 if s2 is not None else spell))
         except Exception:  # noqa: BLE001
             return False
         return r is not None and r[0] == cls
@@ -149,16 +155,24 @@ def shrink(ctx, init, ops, cls, sib=False):
     while changed:
         changed = False
         for i in range(len(ops)):
-            cand = ops[:i] + ops[i + 1:]
-            if fails(init, cand):
-                ops, changed = cand, True
+            cand, scand = ops[:i] + ops[i + 1:], spell[:i] + spell[i + 1:]
+            if fails(init, cand, scand):
+                ops, spell, changed = cand, scand, True
                 break
+    # simplify spellings: plain wherever the failure survives
+    for i in range(len(ops)):
+        for j in range(len(spell[i])):
+            if spell[i][j][0] != "plain":
+                scand = [list(x) for x in spell]
+                scand[i][j] = ("plain", 0)
+                if fails(init, ops, scand):
+                    spell = scand
     for i in range(len(init) - 1, -1, -1):
         cand = init[:i] + init[i + 1:]
         # keep the tree parent-closed
         if all(len(p) == 1 or any(q == p[:-1] and n == "D" for q, n in cand) for p, _ in cand) and fails(cand, ops):
             init = cand
-    return init, ops
+    return init, ops, spell
 
 
 def run(ctx: vlib.Ctx):
@@ -170,16 +184,21 @@ def run(ctx: vlib.Ctx):
     n_seq = 360 if ctx.quick else 5000
     corpus = json.loads((vlib.VERIF / "corpus" / "C29.json").read_text())
     # every corpus case runs in both sandbox layouts (plain / sandbox root = "<private temp dir>_sb")
-    cases = [_norm_case2(c) + (sib,) for c in corpus for sib in (False, True)]
+    cases = [_norm_case2(c) + (sib, _norm_spell(c)) for c in corpus for sib in (False, True)]
     for _ in range(n_seq):
         init = F.gen_init(ctx.rng)
-        cases.append((init, F.gen_ops(ctx.rng, init, ctx.rng.choice([2, 4, 6, 8, 12])), ctx.rng.random() < 0.35))
+        ops = F.gen_ops(ctx.rng, init, ctx.rng.choice([2, 4, 6, 8, 12]))
+        sib = ctx.rng.random() < 0.35
+        # two thirds of the sequences name their paths in other spellings (., .., //, trailing /, relative)
+        cases.append((init, ops, sib, F.gen_spell(ctx.rng, ops) if ctx.rng.random() < 0.67 else None))
     recs = run_all(ctx, cases)
     # S: the property on the real filesystem
     n_or = 0
     seen_sig = set()
-    for (init, ops, sib), rec in zip(cases, recs):
-        ctx.case_seen((init, ops, sib), nontrivial=len(rec["steps"]) > 0)
+    for (init, ops, sib, spell), rec in zip(cases, recs):
+        ctx.case_seen((init, ops, sib, spell), nontrivial=len(rec["steps"]) > 0)
+        for kind in rec["spelled"]:
+            ctx.count("spelling:" + kind)
         ctx.count("layout:" + ("root-is-tmpdir-plus-suffix" if sib else "plain"))
         ctx.count("prefix-sibling-touched", int(_prefix_sibling_touched(rec)))
         ctx.count("skipped-outside-model", rec["skipped"])
@@ -193,17 +212,17 @@ def run(ctx: vlib.Ctx):
             n_or += 1
             if n_or > 40 and not ctx.quick:
                 continue
-            i2, o2 = shrink(ctx, init, [s[0] for s in rec["steps"]], o[0], sib)
+            i2, o2, sp2 = shrink(ctx, init, list(ops), o[0], sib, spell)
             sig = o[0] + ":" + "+".join(sorted({F.op_kind(x) for x in o2}))
             if sig in seen_sig:
                 continue
             seen_sig.add(sig)
-            rec2 = F.run_case(os.path.join(str(ctx.mkscratch()), "final"), i2, o2, sib)
+            rec2 = F.run_case(os.path.join(str(ctx.mkscratch()), "final"), i2, o2, sib, sp2)
             msg = (F.oracle(rec2) or o)[1]
-            ctx.fail(sig, f"{msg}; operations: {[(x[0], x[-1]) for x in o2]}", _json_case(i2, o2, sib) | {"names": F.NAMES})
+            ctx.fail(sig, f"{msg}; operations: {[(x[0], x[-1]) for x in o2]}", _json_case(i2, o2, sib, sp2) | {"names": F.NAMES})
     ctx.leg("S", oracle_failures=n_or, sequences=len(cases))
     k0 = 2 * len(corpus)
-    init, ops, _sib = cases[k0]
+    init, ops, _sib, _spell = cases[k0]
     ctx.sample({"init": [[list(p), n] for p, n in init], "ops": [repr(o) for o in ops],
                 "results": [s[1] for s in recs[k0]["steps"]], "created_at_end": [list(p) for p in (recs[k0]["steps"][-1][2] if recs[k0]["steps"] else [])]})
     ctx.cov["rule"] = ("random sequences of 2..12 operations (open r/w/a/x/r+ via builtins.open, io.open, Path.open, os.open; os.open with "
@@ -223,7 +242,7 @@ def run(ctx: vlib.Ctx):
             i = usable[bad[0]] if bad else next(j for j in range(len(recs)) if j not in usable)
             ctx.broken("correspondence:C29-model-vs-fs_isolation",
                        "the isolation model (about which the theorems are proved) no longer reproduces FilesystemIsolation",
-                       {"case": _json_case(cases[i][0], [s[0] for s in recs[i]["steps"]], cases[i][2]),
+                       {"case": _json_case(cases[i][0], cases[i][1], cases[i][2], cases[i][3]),
                         "implementation": [[repr(s[0]), s[1], [list(p) for p in s[2]]] for s in recs[i]["steps"]],
                         "mismatching_sequences": len(bad)})
     else:
@@ -243,8 +262,8 @@ def replay(ctx, path):
     d = json.loads(open(path).read())["replay"]
     if "case" in d:
         d = d["case"]
-    init, ops, sib = _norm_case(d)
-    rec = F.run_case(os.path.join(str(ctx.mkscratch()), "replay"), init, ops, sib)
+    init, ops, sib, spell = _norm_case(d)
+    rec = F.run_case(os.path.join(str(ctx.mkscratch()), "replay"), init, ops, sib, spell)
     print("before:", rec["before"])
     for op, r, cr, t in rec["steps"]:
         print(" ", op, "->", r, "| _created:", cr)
